@@ -1,7 +1,8 @@
 // C13 -- axis-aligned boxes behave as half-open point sets (fcppt::math::box).
 // Engine E: every box with corners in a small integer range, every pair of such boxes, every
 // lattice point; reference = explicit point sets (see C13_impl.hpp).  This TU only registers
-// the shards; the instantiations live in C13_int.cpp, C13_unsigned.cpp and C13_wide.cpp.
+// the shards; the instantiations live in C13_int.cpp, C13_unsigned.cpp, C13_wide.cpp,
+// C13_float.cpp, C13_double.cpp and C13_heap.cpp (user-defined scalar with observable moves).
 #include <C13_impl.hpp>
 
 int main(int argc, char **argv)
@@ -9,5 +10,8 @@ int main(int argc, char **argv)
   c13::reg_int();
   c13::reg_unsigned();
   c13::reg_wide();
+  c13::reg_float();
+  c13::reg_double();
+  c13::reg_heap();
   return vrt::run(argc, argv);
 }
